@@ -42,7 +42,7 @@ func drawC12(t *rapid.T) Case {
 		// order: force sorted keys so that the byte comparison is meaningful
 		c.Mask |= optSortMapKeys
 	}
-	c.Cross = rapid.IntRange(0, 9).Draw(t, "cross") == 0
+	c.Cross = rapid.IntRange(0, 29).Draw(t, "cross") == 0
 	switch rapid.IntRange(0, 11).Draw(t, "extra") {
 	case 0:
 		c.Unsupported = rapid.IntRange(1, 8).Draw(t, "unsupkind")
@@ -163,6 +163,10 @@ func (c *C12Case) Run() (res stat.Result) {
 		remote, err := w.ask("C12", c)
 		res.Sub++
 		res.Classes = append(res.Classes, "cross-process")
+		if _, ok := err.(errWorkerTimeout); ok {
+			res.Inconclusive = "C12 worker: " + err.Error()
+			return
+		}
 		if err != nil {
 			res.Err = fmt.Errorf("VM worker: %v", err)
 			return
